@@ -52,7 +52,7 @@ CLAIMED.update({
         text=("Every proper prefix of valid files and thousands of arbitrary/mutated byte strings are read by the real reader under recover, watchdog and allocation "
               "measurement; TLC decodes the original with the specification and checks each outcome is an error or an event-for-event prefix, never a panic/timeout, "
               "and that memory stays proportional to the input."),
-        note="Trusted: TLC, SmfParse, harness measurement (recover, 10 s watchdog, TotalAlloc). Memory bound is a generous constant (1 KiB/byte + 8 MiB).",
+        note="Trusted: TLC, SmfParse, harness measurement (recover, 30 s watchdog, TotalAlloc). Memory bound is a generous constant (1 KiB/byte + 8 MiB).",
         technique="TLC trace validation of truncation-at-every-offset and mutation experiments against the TLA+ decoder",
         ref="DESIGN.md section 4 C05"),
     "C09": dict(
@@ -93,7 +93,7 @@ CLAIMED.update({
               "return value and deliveries compared after every call. midicatdrv: a PlusCal model of the concurrent in port (client, reader and control goroutines, RWMutex "
               "with writer preference, capacity-1 channels, helper process, start failure) is model-checked for deadlock freedom, no-callback-after-stop and lock discipline "
               "(with a regression config of the pre-fix start-failure path that must deadlock); the real driver runs seeded random histories incl. 2-4 concurrent senders and "
-              "start failures against a stand-in helper pair (two real child processes joined by a datagram socket), built with -race, every call under a 10 s watchdog, and "
+              "start failures against a stand-in helper pair (two real child processes joined by a datagram socket), built with -race, every call under a 30 s watchdog, and "
               "TLC judges each recorded history with Ports!PStep / ParOk (incl. listen options, message classes, stop racing with a delivery in flight). The PlusCal model is checked to "
               "refine the abstract monitor McatEvents of the port's critical sections, and the verif hook's events recorded from the real in port (lock order) are validated against the same monitor."),
         note=("Data-race freedom is observed by the Go race detector during the recorded runs (not a TLA+ notion). 'Never called again' is read as: no listener code runs once stop() has returned. "
